@@ -217,6 +217,10 @@ def apply(par, o: dict, tokens: list, variant: int = 0):
         else:
             par.insert_note(after=el, note_id="note2", citation="2", body="a note")
         return par
+    if op == "move_end":
+        start = par.get_reference_mark_start(name=o["name"]) or par.get_reference_mark(name=o["name"])
+        par.set_reference_mark_end(start, position=o["pos"])
+        return par
     if op == "mark_range":
         pos = (o["a"], o["b"])
         # (an annotation only as the last operation on a paragraph: once it is there, the offsets of later calls
